@@ -59,19 +59,19 @@ type Tagged struct {
 	E uint8
 }
 type OmitAll struct {
-	A int               `refmt:",omitempty"`
-	B string            `refmt:",omitempty"`
-	C []int             `refmt:",omitempty"`
-	D map[string]int    `refmt:",omitempty"`
-	E *int              `refmt:",omitempty"`
-	F interface{}       `refmt:",omitempty"`
-	G Inner             `refmt:",omitempty"`
-	H [2]int            `refmt:",omitempty"`
-	I bool              `refmt:",omitempty"`
-	J float64           `refmt:",omitempty"`
-	K uint16            `refmt:",omitempty"`
-	L [0]int            `refmt:",omitempty"`
-	M []byte            `refmt:",omitempty"`
+	A int            `refmt:",omitempty"`
+	B string         `refmt:",omitempty"`
+	C []int          `refmt:",omitempty"`
+	D map[string]int `refmt:",omitempty"`
+	E *int           `refmt:",omitempty"`
+	F interface{}    `refmt:",omitempty"`
+	G Inner          `refmt:",omitempty"`
+	H [2]int         `refmt:",omitempty"`
+	I bool           `refmt:",omitempty"`
+	J float64        `refmt:",omitempty"`
+	K uint16         `refmt:",omitempty"`
+	L [0]int         `refmt:",omitempty"`
+	M []byte         `refmt:",omitempty"`
 }
 type Nums struct {
 	I8  int8
@@ -126,6 +126,15 @@ type TwoMaps struct {
 // transformed to a struct that has its own (untagged) struct-map entry
 type TrSq struct{ V string }
 
+// transformed to a one-entry map (a serial form that is itself a container)
+type TrMap struct {
+	K string
+	V int
+}
+
+// transformed to a byte slice: the serial form of the zero value is null
+type TrOpt struct{ B []byte }
+
 // ---------------------------------------------------------------- transform library
 
 type trPair struct {
@@ -167,6 +176,20 @@ var transforms = []trPair{
 	{5,
 		func(t TrSq) (Square, error) { return Square{t.V}, nil },
 		func(q Square) (TrSq, error) { return TrSq{q.S}, nil }},
+	{6,
+		func(t TrMap) (map[string]int, error) { return map[string]int{t.K: t.V}, nil },
+		func(m map[string]int) (TrMap, error) {
+			if len(m) != 1 {
+				return TrMap{}, fmt.Errorf("want exactly one entry")
+			}
+			for k, v := range m {
+				return TrMap{k, v}, nil
+			}
+			return TrMap{}, nil
+		}},
+	{7,
+		func(t TrOpt) ([]byte, error) { return t.B, nil },
+		func(b []byte) (TrOpt, error) { return TrOpt{b}, nil }},
 }
 
 // ---------------------------------------------------------------- type registry
@@ -306,6 +329,8 @@ func buildAtlases() {
 	trFuncID[reflect.TypeOf(TrBytes{})] = 3
 	trFuncID[reflect.TypeOf(TrComp{})] = 4
 	trFuncID[reflect.TypeOf(TrSq{})] = 5
+	trFuncID[reflect.TypeOf(TrMap{})] = 6
+	trFuncID[reflect.TypeOf(TrOpt{})] = 7
 	structs := []interface{}{Inner{}, WithPtr{}, Emb{}, Rec{}, Tagged{}, OmitAll{}, Nums{}, HasShape{}, HasNoAtlas{}, MapKeyed{}, TwoMaps{}, Circle{}, Square{}}
 	mk := func(id int, sort atlas.KeySortMode, mode atlas.KeySortMode, tags bool, extra ...*atlas.AtlasEntry) {
 		var es []*atlas.AtlasEntry
@@ -320,11 +345,11 @@ func buildAtlases() {
 		}
 		circle, square := es[len(es)-2], es[len(es)-1]
 		es = append(es, atlas.BuildEntry((*Shape)(nil)).KeyedUnion().Of(map[string]*atlas.AtlasEntry{"circle": circle, "sq": square}))
-		tt, sqTag := -1, -1
+		tt, sqTag, optTag := -1, -1, -1
 		if tags {
-			tt, sqTag = 23, 25
+			tt, sqTag, optTag = 23, 25, 27
 		}
-		es = append(es, trEntry(KeyStruct{}, 1, -1), trEntry(TrNum(0), 2, tt), trEntry(TrBytes{}, 3, tt+1), trEntry(TrComp{}, 4, -1), trEntry(TrSq{}, 5, sqTag))
+		es = append(es, trEntry(KeyStruct{}, 1, -1), trEntry(TrNum(0), 2, tt), trEntry(TrBytes{}, 3, tt+1), trEntry(TrComp{}, 4, -1), trEntry(TrSq{}, 5, sqTag), trEntry(TrMap{}, 6, -1), trEntry(TrOpt{}, 7, optTag))
 		es = append(es, extra...)
 		a := atlas.MustBuild(es...).WithMapMorphism(atlas.MapMorphism{KeySortMode: sort})
 		atlases = append(atlases, &atlasCfg{id: id, atl: a, entries: es, nReg: len(es), sort: sort})
@@ -445,7 +470,7 @@ func rootTypes() []reflect.Type {
 		float32(0), float64(0), []byte{}, MyInt(0), MyI8(0), MyI16(0), MyU16(0), MyU32(0), MyStr(""), MyBool(false), MyF32(0), MyBytes{},
 		Arr4{}, Arr0{}, [3]byte{}, []MyByte{}, [2]MyByte{},
 		Inner{}, WithPtr{}, Emb{}, EmbPtr{}, Rec{}, Tagged{}, OmitAll{}, Nums{}, KeyStruct{}, TrNum(0), TrBytes{}, TrComp{}, HasShape{},
-		NoAtlas{}, HasNoAtlas{}, MapKeyed{}, MapInt{}, StrMap{}, Circle{}, Square{}, TwoMaps{}, TrSq{}, []TrSq{}, map[string]TrSq{}, map[string]NoAtlas{}, map[string][]NoAtlas{}, []map[string]int{}, (*int64)(nil), []int64{},
+		NoAtlas{}, HasNoAtlas{}, MapKeyed{}, MapInt{}, StrMap{}, Circle{}, Square{}, TwoMaps{}, TrSq{}, []TrSq{}, map[string]TrSq{}, TrMap{}, []TrMap{}, map[string]TrMap{}, [2]TrMap{}, TrOpt{}, []TrOpt{}, map[string]NoAtlas{}, map[string][]NoAtlas{}, []map[string]int{}, (*int64)(nil), []int64{}, [2][]byte{}, [1]*[4]byte{}, [2]interface{}{}, [2]map[string]int{}, [2][]int{},
 		[]int{}, []string{}, [2]string{}, [0]int{}, [][]int{}, []*int{}, []interface{}{}, map[string]int{}, map[string]interface{}{},
 		map[string][]byte{}, map[string]map[string]string{}, map[KeyStruct]string{}, map[TrNum]int{}, map[int]int{}, map[MyStr]int{},
 		(*int)(nil), (**string)(nil), (*[]int)(nil), (*Inner)(nil), (***Inner)(nil), (*interface{})(nil), []*Inner{}, map[string]*Rec{},
